@@ -31,13 +31,21 @@ Inductive xev :=
 
 Inductive case :=
 | BCase (evs : list xev) (rows : list (Z * Z * Z))     (* per event: code, accepts, total *)
-| PCase (which : nat) (arg : Z) (ok : bool)             (* 0 grpc, 1 sqlx, 2 redis, 3 http status (explicit),
-                                                           5 server / 6 client breaker interceptor: code + 100*panic *)
+| PCase (which : nat) (arg : Z) (ok : bool)
+    (* one value of a finite set; ok = the predicate's answer (0 gRPC code, 1 sqlx error, 2 redis error) or, for the
+       sustained black-box streams (200 identical calls through one breaker), "never cut off":
+       3 HTTP status written explicitly; 5 server unary / 9 server stream / 6 client breaker interceptor:
+       code + 100*panic; 7 sqlx call site: site*1000 + mysql*100 + error class; 8 redis call site: site*100 + class *)
 | HCase (shp : nat) (status code : Z) (ok : bool)
-| RCase (rows : list (list Z)).                         (* registry, concurrent first use of fresh names: per name
-                                                           [g; do-entrants; distinct breakers; lost marks; probe via
-                                                           another handle rejected; probe via Do(name) rejected; forced] *)      (* HTTP response shape through BreakerHandler: Code held by
-                                                           WithCodeResponseWriter, never cut off in 200 requests? *)
+    (* HTTP response shape through BreakerHandler: Code held by WithCodeResponseWriter, never cut off in 200 requests? *)
+| RCase (rows : list (list Z))
+    (* registry, concurrent first use of fresh names: per name [g; do-entrants; distinct breakers; lost marks;
+       probe via another handle rejected; probe via Do(name) rejected; forced] *)
+| MCase (side : nat) (calls : list (nat * Z)) (rej : list bool).
+    (* mixed stream through one breaker on a frozen clock: side 0 client BreakerInterceptor, 1 server unary,
+       2 server stream; per call (class, gRPC code): class 0 live context, status.Error(code) comes back;
+       1 the caller's own deadline has expired (DeadlineExceeded status); 2 cancelled context (Canceled status);
+       4, 5 panic; rej: cut off by the breaker *)
 
 Definition to_ev (x : xev) : nat * ev :=
   match x with
@@ -107,7 +115,29 @@ Definition pred (which : nat) (arg : Z) : bool :=
   | 1%nat => C01_Gen.sqlx_acceptable (if 10 <=? arg then 1 else 0) (arg mod 10)
   | 2%nat => C01_Gen.redis_acceptable arg
   | 3%nat => arg <? http_threshold
+  | 7%nat => let cl := arg mod 100 in
+             C01_Gen.sqlx_acceptable ((arg / 100) mod 10) (if cl =? 9 then 99 else if cl =? 8 then 98 else cl)
+  | 8%nat => C01_Gen.redis_acceptable (arg mod 100)
   | _ => rpc_mark arg
+  end.
+
+(* mixed streams: the gRPC code that comes back for a class, and the mark *)
+Definition m_code (class : nat) (code : Z) : option Z :=
+  match class with
+  | 0%nat => Some code | 1%nat => Some 4 | 2%nat => Some 1 | _ => None      (* None: panic *)
+  end.
+Definition m_mark (class : nat) (code : Z) : bool :=
+  match m_code class code with Some c => grpc_acceptable c | None => false end.
+
+(* frozen clock, one breaker: (accepts, total) only grow; a call may be cut off only when the excess is positive
+   (the coin is not scripted here: both answers are allowed then), and is let in and marked otherwise *)
+Fixpoint m_run (mark : nat -> Z -> bool) (a t : Z) (calls : list (nat * Z)) (rej : list bool) : bool :=
+  match calls, rej with
+  | [], [] => true
+  | (cl, c) :: cs, r :: rs =>
+      if r then (0 <? excess2 a t) && m_run mark a t cs rs
+      else m_run mark (if mark cl c then a + 1 else a) (t + 1) cs rs
+  | _, _ => false
   end.
 
 (* response shapes of the api/handler driver *)
@@ -144,6 +174,7 @@ Definition model_ok (c : case) : bool :=
   | HCase k st code ok =>
       (code =? http_code (hguard k) (hshape k st)) && Bool.eqb ok (http_mark (hguard k) (hshape k st))
   | RCase rows => forallb r_row_ok rows
+  | MCase side calls rej => m_run m_mark 0 0 calls rej
   end.
 
 (* ---------- the property on the observations ---------- *)
@@ -204,19 +235,38 @@ Definition benign (which : nat) (arg : Z) : bool :=
   | 1%nat => existsb (Z.eqb (arg mod 10)) [0; 1; 2; 3]        (* nil ErrNoRows ErrTxDone context.Canceled *)
   | 2%nat => existsb (Z.eqb arg) [0; 3; 4]                    (* nil context.Canceled redis.Nil *)
   | 3%nat => arg <? 500                                        (* HTTP status below 500 *)
+  | 7%nat => existsb (Z.eqb (arg mod 100)) [0; 1; 2; 3]       (* sqlx call sites: same classes *)
+  | 8%nat => existsb (Z.eqb (arg mod 100)) [0; 3; 4]          (* redis call sites *)
   | _ => (arg / 100 =? 0) && negb (existsb (Z.eqb (arg mod 100)) [4; 13; 14; 15; 12])   (* returned, benign code *)
   end.
 
-(* 3, 5, 6 and HCase are sustained black-box runs (200 calls through one breaker): a benign outcome is
-   never cut off; one that keeps failing (status >= 500, one of the five codes, a panic) is cut off *)
-Definition sustained (which : nat) : bool := (3 <=? which)%nat.
+(* 3, 5..9 and HCase are sustained black-box runs (200 calls through one breaker): a benign outcome is
+   never cut off; one that keeps failing (status >= 500, one of the five codes, a panic, another error) is cut off.
+   Not named by the statement, hence no demand: MySQL errors under NewMySQL's own accept option (classes 8, 9). *)
+Definition sustained (which : nat) (arg : Z) : bool :=
+  (3 <=? which)%nat && negb (Nat.eqb which 7 && (8 <=? arg mod 100)).
+
+(* the statement's reading of a mixed stream: benign codes (Canceled included) are successes, DeadlineExceeded
+   and the other four codes and panics are failures *)
+Definition m_benign (class : nat) (code : Z) : bool :=
+  match m_code class code with Some c => benign 0 c | None => false end.
+
+(* calls at whose start the drop ratio was >= 1/2 (2*excess >= 2*(total+1)): with 40 of them let through, a fair
+   coin has rejected none with probability 2^-40 *)
+Fixpoint m_hot (a t : Z) (calls : list (nat * Z)) (rej : list bool) : Z :=
+  match calls, rej with
+  | (cl, c) :: cs, r :: rs =>
+      (if (t + 1 <=? excess2 a t) then 1 else 0) +
+      (if r then m_hot a t cs rs else m_hot (if m_benign cl c then a + 1 else a) (t + 1) cs rs)
+  | _, _ => 0
+  end.
 
 Definition spec_ok (c : case) : bool :=
   match c with
   | BCase evs rows =>
       if forallb (fun x => match x with XAdv dt => 0 <=? dt | _ => true end) evs
       then b_spec [] t0 evs rows else true
-  | PCase which arg ok => if benign which arg then ok else if sustained which then negb ok else true
+  | PCase which arg ok => if benign which arg then ok else if sustained which arg then negb ok else true
   | HCase k st code ok =>
       (* the status the client gets: written explicitly, else the implicit 200; a recovered panic is a 500 *)
       if http_status (hguard k) (hshape k st) <? 500 then ok else negb ok
@@ -227,4 +277,9 @@ Definition spec_ok (c : case) : bool :=
                           | [g; ndo; distinct; miss; pb; pd; forced] => (distinct =? 1) && (miss =? 0) && (pb =? 1) && (pd =? 1)
                           | _ => false
                           end) rows
+  | MCase side calls rej =>
+      (* cut off only on real failure excess (Canceled and the other benign codes never move the breaker), and
+         a dependency that keeps failing (DeadlineExceeded of an expired caller deadline included) IS cut off *)
+      m_run m_benign 0 0 calls rej &&
+      (if 40 <=? m_hot 0 0 calls rej then existsb (fun r => r) rej else true)
   end.
